@@ -144,6 +144,54 @@ def area_laws(case, outs):
     return fails
 
 
+OPNAME = {0: "area()", 1: "inverse()", 2: "invert()"}
+
+
+def make_history(rng):
+    """a call history on one object; most start with inverse() or contain a re-use right after it"""
+    n = rng.randint(2, 7)
+    ops = [rng.choice([0, 1, 1, 2]) for _ in range(n)]
+    if rng.random() < 0.5:
+        ops = [1, 0] + ops
+    return ops
+
+
+def history_laws(case, ops, o):
+    """one object driven through `ops`, compared with FRESH objects after every call"""
+    if "error" in o:
+        return [("C17.history.crash", "history %s on %s: %s" % ([OPNAME[x] for x in ops], case["v"], o["error"]))]
+    fails = []
+    fresh = o["fresh"]
+    t = tol(case["r"])
+    k = 0                                   # parity of invert() calls: the model's state
+    done = []
+    for op, st in zip(ops, o["steps"]):
+        done.append(OPNAME[op])
+        if op == 2:
+            k = 1 - k
+        key = "C17.history." + ("inverse" if op == 1 else "invert" if op == 2 else "area")
+        what = None
+        if st["state"] != k:
+            what = "the object's vertices are %s" % {0: "as given", 1: "reversed", 2: "neither the given nor the reversed list"}[st["state"]]
+        elif not st["attrs_ok"]:
+            what = "the object's lon/lat/cvertices no longer describe its vertices"
+        elif not abs(st["area"] - fresh[k]) <= t:
+            what = "the object's area is %.15g, a fresh polygon with these vertices has %.15g" % (st["area"], fresh[k])
+        elif op == 0 and not abs(st["ret_area"] - fresh[k]) <= t:
+            what = "area() returned %.15g, a fresh polygon has %.15g" % (st["ret_area"], fresh[k])
+        elif op == 1 and (st["ret_state"] != 1 - k or not st["ret_attrs_ok"] or not abs(st["ret_area"] - fresh[1 - k]) <= t):
+            what = "inverse() returned a polygon with vertices state %s and area %.15g, expected the reversed list and %.15g" % (
+                st["ret_state"], st["ret_area"], fresh[1 - k])
+        elif op == 1 and not abs(st["area"] + st["ret_area"] - FOUR_PI * case["r"] ** 2) <= t:
+            what = "area(P) %.15g + area(P.inverse()) %.15g != 4 pi r^2 with P re-used after inverse()" % (st["area"], st["ret_area"])
+        elif op != 2 and st["input_state"] != 0 and not any(x == "invert()" for x in done):
+            what = "the caller's vertex array was changed"
+        if what:
+            fails.append((key, "after %s on one SphPolygon(%s, radius=%r): %s" % (" ; ".join(done), case["v"], case["r"], what)))
+            break
+    return fails
+
+
 def bearing(lon_x, lat_x, lon_p, lat_p):
     d = lon_x - lon_p
     return math.atan2(math.sin(d) * math.cos(lat_x), math.sin(lat_x) * math.cos(lat_p) - math.cos(lat_x) * math.sin(lat_p) * math.cos(d))
@@ -262,6 +310,9 @@ def pair_laws(case, o):
                       % (A, B, case["area_a_ref"] * r2, case["area_b_ref"] * r2, desc)))
     iab, iba, uab, uba = o["inter_ab"], o["inter_ba"], o["union_ab"], o["union_ba"]
     rel = case["relation"]
+    if not o.get("operands_unchanged", True) or abs(o.get("area_a_after", A) - A) > t or abs(o.get("area_b_after", B) - B) > t:
+        fails.append(("C17.setops.purity", "after intersection/union the operands changed: areas %.15g, %.15g -> %.15g, %.15g, vertices unchanged: %s: %s"
+                      % (A, B, o.get("area_a_after"), o.get("area_b_after"), o.get("operands_unchanged"), desc)))
 
     def bad(op, msg):
         # the two tolerance-related input classes fail in union and intersection alike: one key per class
@@ -367,10 +418,12 @@ def run(ctx):
                 "vertices built in a gnomonic chart and placed generically / with a pole inside / with a vertex exactly on a pole / "
                 "across the antimeridian / next to a pole / on the equator-meridian cross; per polygon: enclosed area by an independent "
                 "triangle fan, interior angles from tangent vectors, 2 cyclic relabellings, 2 random rotations, one interior diagonal, "
-                "a radius, inverse()/invert(). pairs: two strictly convex polygons in one chart (overlapping / disjoint / nested), "
+                "a radius, inverse()/invert(); two random call histories (2..9 calls of area()/inverse()/invert() on ONE object, the object, "
+                "the returned polygons and the caller's array compared with fresh objects after every call). pairs: two strictly convex polygons in one chart (overlapping / disjoint / nested), "
                 "general position >= 1.5e-6 rad, streams: well separated, down to the bound, crossings next to vertices, edges "
                 "crossing at < 4.6e-4 rad, distinct nodes closer than 6e-5 rad; oracle = the laws + the common region by planar "
-                "clipping. non-trivial = every generated polygon / pair (all are inside the property's input class); distinct = "
+                "clipping; operands re-examined after the operations. non-trivial = every generated polygon / pair (all are inside the "
+                "property's input class), histories with at least one inverse()/invert(); distinct = "
                 "distinct inputs. Tolerance 1e-9 * 4 pi r^2 on every area law.")
     # ---- area
     n_area = ctx.n(110, 1300)
@@ -388,9 +441,12 @@ def run(ctx):
     mal = malformed_polys(rng, ctx.n(40, 300))
     n_valid = len(req_polys)
     req_polys += [{"v": e["v"], "r": e["r"], "inv": False} for e in mal]
+    # ---- histories of calls on one object (two per area case)
+    hist = [(c, make_history(rng)) for c in area_cases for _ in range(2)]
     # ---- pairs
     pair_cases = make_pair_cases(ctx)
-    obs = ctx.impl("c17", {"polys": req_polys, "pairs": [pair_request(c) for c in pair_cases]}, timeout=3000)
+    obs = ctx.impl("c17", {"polys": req_polys, "pairs": [pair_request(c) for c in pair_cases],
+                           "hist": [{"v": c["v"], "r": c["r"], "ops": ops} for c, ops in hist]}, timeout=3000)
 
     sampled = set()
     # ---- property oracle: area laws
@@ -405,6 +461,21 @@ def run(ctx):
         sampled.add(skey)
         for key, what in area_laws(c, outs):
             ctx.add_failure(key, what, {"oracle": "area", "case": c})
+    # ---- property oracle: call histories on one object vs fresh objects
+    hlines = []
+    for (c, ops), o in zip(hist, obs["hist"]):
+        ctx.count("history_len_%d" % len(ops))
+        skey = "history"
+        ctx.case(("hist", repr(c["v"]), c["r"], tuple(ops)), nontrivial=1 in ops or 2 in ops,
+                 sample=None if skey in sampled else {skey: [OPNAME[x] for x in ops], "polygon": c["v"], "radius": c["r"],
+                                                      "impl_area_after_each_call": [s.get("area") for s in o.get("steps", [])],
+                                                      "fresh_areas": o.get("fresh")})
+        sampled.add(skey)
+        for key, what in history_laws(c, ops, o):
+            ctx.add_failure(key, what, {"oracle": "hist", "case": c, "ops": ops})
+        if "error" not in o:
+            hlines.append("(%d, %s, [%s])" % (len(c["v"]), "[" + "; ".join(zl(x) for x in ops) + "]",
+                                              "; ".join("(%d, %s)" % (s["state"], zl(s.get("ret_state", -1))) for s in o["steps"])))
     # ---- property oracle: set operations
     for c, o in zip(pair_cases, obs["pairs"]):
         cls = pair_class(c)
@@ -450,6 +521,11 @@ def run(ctx):
         part = olines[k:k + 250]
         texts.append(("c17_walk_%02d" % (k // 250), HDR + "Definition cases : list (Z * Z * list (Z * Z * Z * float * float * Z * Z) * Z * bool * bool * Z * list (Z * Z)) := [%s].\n"
                       "Eval vm_compute in (bad chk_oper cases).\n" % ";\n".join(part), part, "bool_oper_walk"))
+    for k in range(0, len(hlines), 500):
+        part = hlines[k:k + 500]
+        texts.append(("c17_hist_%02d" % (k // 500), HDR + "Definition cases : list (Z * list Z * list (Z * Z)) := [%s].\n"
+                      "Eval vm_compute in (bad chk_hist cases).\n" % ";\n".join(part), part, "call_history"))
+    ctx.count("corr_history_cases", len(hlines))
     if len(olines) < len([c for c in pair_cases if c.get("table")]):
         ctx.broken.append(("correspondence:walk_coverage", "only %d walk traces could be encoded" % len(olines)))
     ctx.count("malformed_polygons_correspondence_only", len(mal))
@@ -472,7 +548,10 @@ def run(ctx):
 def replay(ctx, data):
     d = data["case"]
     c = d["case"]
-    if d["oracle"] == "area":
+    if d["oracle"] == "hist":
+        obs = ctx.impl("c17", {"hist": [{"v": c["v"], "r": c["r"], "ops": d["ops"]}]})
+        fails = history_laws(c, d["ops"], obs["hist"][0])
+    elif d["oracle"] == "area":
         ent = area_entries(c)
         obs = ctx.impl("c17", {"polys": [{"v": e["v"], "r": e["r"], "inv": bool(e.get("inv"))} for e in ent]})
         fails = area_laws(c, obs["polys"])
